@@ -2,7 +2,10 @@
   C15 — output files carry the in-memory results on the requested grids, units and names.
 
   Every statement is about `CijModel/Writer.lean`; the rules are `Generated.writerRules`, re-translated from
-  cij/data/output/writer_rules.yml on every run (so a changed YAML is re-checked by the kernel).
+  cij/data/output/writer_rules.yml on every run (so a changed YAML is re-checked by the kernel).  The CODE of the output path
+  (results_writer.py, qha_output.py, write_table / write_variables of both interface classes, Calculator.write_output) is
+  re-translated as well (`Generated/WriterSpec.lean`, tools/gens/writer_src.py); the `writer_model_is_source_*` theorems at the end
+  say that every model function used above is the interpreter (Lemmas/WriterSource.lean) of those translated statements.
   Finite facts about the rules are closed by kernel evaluation (`decide +kernel`); the content theorems are
   for all scalars `α` (any type with `*`; a commutative ring where unit factors must cancel), all grids
   (NT, DT, T_MIN, NTV, DELTA_P, P_MIN), all in-memory arrays and all component lists.
@@ -11,6 +14,7 @@
   values, the 6-decimal rounding of the labels, pint's numeric factors.
 -/
 import CijProofs.Lemmas.Writer
+import CijProofs.Lemmas.WriterSource
 
 namespace Cij.C15
 
@@ -434,6 +438,166 @@ theorem write_variables_concat {α} [Mul α] (U : Writer.Units α) (b : Base α)
       simp [e]
   rw [this, optAll_map_some]; rfl
 
+/-! #### the model is the source: every model function = the interpreter of the statements translated on this run
+
+`Generated/WriterSpec.lean` is re-extracted from the working tree by tools/gens/writer_src.py on every run; the interpreters
+(`Cij.Writer.Source.*`, Lemmas/WriterSource.lean) give the extracted data its meaning.  Each theorem is for ALL rules, bases,
+configs and lists; a changed statement in the source changes the data and the theorem named after the function stops checking. -/
+
+section source
+open Cij.Writer.Source
+
+/-- `ResultsWriterRule.create`: each of the six NamedTuple fields is the YAML entry of the same name, all six exist for every
+rule, `_asdict()` has exactly these keys — in particular no `fname` and no `keyword`, so `"fname" in _config` asks the USER's entry. -/
+theorem writer_model_is_source_create (r : WriterRule) :
+    (∀ f ∈ writerRuleFields, tupleGet Src.generated r f = yamlGet r f ∧ (yamlGet r f).isSome) ∧
+    (∀ k, asdictGet Src.generated r k = if k ∈ writerRuleFields then yamlGet r k else none) ∧
+    writerRuleFields.length = 6 ∧ "fname" ∉ writerRuleFields ∧ "keyword" ∉ writerRuleFields := by
+  have hP : Src.generated = Src.canonical := rfl
+  refine ⟨?_, ?_, by decide +kernel, by decide +kernel, by decide +kernel⟩
+  · intro f hf
+    rw [hP]
+    simp only [writerRuleFields, List.mem_cons, List.not_mem_nil, or_false] at hf
+    rcases hf with rfl | rfl | rfl | rfl | rfl | rfl <;> simp [tupleGet, Src.canonical, dictGet, yamlGet]
+  · intro k
+    rw [hP]
+    by_cases hk : k ∈ writerRuleFields
+    · have hk' := hk
+      simp only [writerRuleFields, List.mem_cons, List.not_mem_nil, or_false] at hk'
+      rcases hk' with rfl | rfl | rfl | rfl | rfl | rfl <;>
+        simp [asdictGet, tupleGet, Src.canonical, dictGet, yamlGet, writerRuleFields]
+    · have hk' : k ∉ Src.canonical.fields := hk
+      simp [asdictGet, hk, hk']
+
+/-- `_format_ij`: the model's `{ij}` is `"<format>" % key.<attr>` with the translated format and attribute -/
+theorem writer_model_is_source_format_ij (key : Modulus) : formatIj key = evalFormatIj Src.generated key := by
+  have hP : Src.generated = Src.canonical := rfl
+  rw [hP, formatIj_canonical]
+
+/-- `write_variable`: override order (`_config = self._asdict(); _config.update(config)` — rule first, user entry over it),
+`convert_unit(_config["unit_internal"], _config["unit"])`, `getattr(base, self.prop)`, the file-name rule and the single
+`base.write_table(fname, convert(variable))` are the translated ones. -/
+theorem writer_model_is_source_write_variable {α} [Mul α] (U : Writer.Units α) (r : WriterRule) (b : Base α) (cfg : Option Config) :
+    writeVariable U r b cfg = evalWrite Src.generated writeVariableSpec U r b cfg := by
+  have hP : Src.generated = Src.canonical := rfl
+  have hS : writeVariableSpec = canonValueSpec := rfl
+  rw [hP, hS, evalWrite_value_canonical]
+
+/-- `write_ij_variable`: the same prologue; each item of `.items()`, in that order, gets its own file name
+(`"fname" in _config` → `config["fname"]`, else the pattern with `base` and `ij = _format_ij(k)`) and its own
+`base.write_table(fname, convert(v))`. -/
+theorem writer_model_is_source_write_ij_variable {α} [Mul α] (U : Writer.Units α) (r : WriterRule) (b : Base α) (cfg : Option Config) :
+    writeIjVariable U r b cfg = evalWrite Src.generated writeIjVariableSpec U r b cfg := by
+  have hP : Src.generated = Src.canonical := rfl
+  have hS : writeIjVariableSpec = canonIjSpec := rfl
+  rw [hP, hS, evalWrite_ij_canonical]
+
+/-- the unit factor of the model is pint's factor from (user's `unit_internal` over the rule's) to (user's `unit` over the rule's):
+both dict lookups go through the translated layer order, the two strings reach `convert_unit` in the translated positions, and
+`convert_unit` converts from its translated source parameter to its translated target parameter. -/
+theorem writer_model_is_source_convert {α} [Mul α] (U : Writer.Units α) (r : WriterRule) (cfg : Option Config) :
+    factorOf U r cfg =
+      ((lookup writeVariableSpec.layers (asdictGet Src.generated r) (cfg.map userGet)
+          writeVariableSpec.convertFrom.1 writeVariableSpec.convertFrom.2).bind PyVal.asStr).bind fun u₀ =>
+      ((lookup writeVariableSpec.layers (asdictGet Src.generated r) (cfg.map userGet)
+          writeVariableSpec.convertTo.1 writeVariableSpec.convertTo.2).bind PyVal.asStr).bind fun u₁ =>
+      convertCall Src.generated U [u₀, u₁] := by
+  have hP : Src.generated = Src.canonical := rfl
+  have hS : writeVariableSpec = canonValueSpec := rfl
+  rw [hP, hS]
+  simp only [canonValueSpec, lookup_unit, lookup_unit_internal, convertCall_canonical, Option.bind_some, factorOf]
+
+/-- `ResultsWriterRule.write`: the `var_type` dispatch table -/
+theorem writer_model_is_source_dispatch {α} [Mul α] (U : Writer.Units α) (r : WriterRule) (b : Base α) (cfg : Option Config) :
+    writeRule U r b cfg = evalDispatch writerDispatch U r b cfg := by
+  have hD : writerDispatch = canonDispatch := rfl
+  rw [hD, evalDispatch_canonical]
+
+/-- `ResultsWriter._init_rules`: one registry entry per keyword of every rule in file order, a later rule overwriting an
+earlier one — for ANY rule list -/
+theorem writer_model_is_source_registry (rules : List WriterRule) :
+    evalRegistry Src.generated registryKeyField rules = some (initRules rules) := by
+  have hP : Src.generated = Src.canonical := rfl
+  have hF : registryKeyField = "keywords" := rfl
+  rw [hP, hF, evalRegistry_canonical]
+
+/-- `ResultsWriter.write`: a bare string is wrapped under the translated key, the rule is looked up under the translated key,
+and the (wrapped) entry is handed on — for any rule list, base and entry -/
+theorem writer_model_is_source_write {α} [Mul α] (rules : List WriterRule) (U : Writer.Units α) (b : Base α) (q : Request) :
+    writeKeywordIn rules U b q.config = evalWriterWrite writerBareKey writerDispatchKey rules U b q := by
+  have h1 : writerBareKey = "keyword" := rfl
+  have h2 : writerDispatchKey = "keyword" := rfl
+  rw [h1, h2, evalWriterWrite_canonical]
+
+/-- `write_table` of the class the base belongs to: the translated saver with the translated five arguments — rows `self.t_array`,
+columns `_to_gpa(self.p_array)` resp. `_to_ang3(self.v_array)` with NO other operation on the labels, the sample argument being the
+very label array (so qha's `isin` filter keeps every row / column), `value` and `fname` passed through. -/
+theorem writer_model_is_source_write_table {α} [Mul α] (U : Writer.Units α) (b : Base α) (fname : String) (value : Matrix α) :
+    writeTable U b fname value =
+      evalWriteTable (if b.pressureBase then pressureWriteTable else volumeWriteTable) U b fname value := by
+  have h1 : pressureWriteTable = canonPressureTable := rfl
+  have h2 : volumeWriteTable = canonVolumeTable := rfl
+  rw [h1, h2, evalWriteTable_canonical]
+
+/-- `write_variables` of the class the base belongs to: a fresh `ResultsWriter(self)` per call (the base the method was called
+on, the packaged rules), one `writer.write(c)` per entry of the list, in order — for every list -/
+theorem writer_model_is_source_write_variables {α} [Mul α] (U : Writer.Units α) (b : Base α) (cfgs : List Config) :
+    writeVariables U b cfgs =
+      evalWriteVariables (if b.pressureBase then pressureWriteVariables else volumeWriteVariables) writerCtorParams U b cfgs := by
+  have h1 : pressureWriteVariables = canonWriteVariables := rfl
+  have h2 : volumeWriteVariables = canonWriteVariables := rfl
+  have h3 : writerCtorParams = ["base", "rules"] := rfl
+  rw [h1, h2, h3, ite_self, evalWriteVariables_canonical]
+
+/-- `Calculator.write_output`: which list of the `output` section goes to which view, in which order -/
+theorem writer_model_is_source_write_output {α} [Mul α] (U : Writer.Units α) (pb vb : Base α) (pcfg vcfg : Option (List Config)) :
+    writeOutput U pb vb pcfg vcfg =
+      evalWriteOutput writeOutputSteps calculatorViews U pb vb (outputLists pcfg vcfg) := by
+  have h1 : writeOutputSteps = canonSteps := rfl
+  have h2 : calculatorViews = canonViews := rfl
+  rw [h1, h2, evalWriteOutput_canonical]
+
+/-- the remaining translated facts the theorems above rely on: `_base_name` of the two classes (the `{base}` of every file
+name); the packaged rules file is the translated YAML; qha_output.py binds every name to the function of the same name in
+qha.basic_io.out, among them the two savers `write_table` calls; `_to_gpa` / `_to_ang3` convert Ry/bohr³ → GPa and bohr³ → Å³;
+the tensor views of both classes hand out the calculator's tensor OF THE SAME NAME (so the rule's `prop` selects adiabatic vs
+isothermal down to the calculator); the grid arrays are qha's. -/
+theorem writer_model_is_source_static :
+    baseNames = [("CijVolumeBaseInterface", "tv"), ("CijPressureBaseInterface", "tp")] ∧
+    defaultRulesPath = "cij/data/output/writer_rules.yml" ∧
+    (∀ e ∈ qhaOutputImports, e.1 = "qha.basic_io.out" ∧ e.2.1 = e.2.2) ∧
+    (∀ W ∈ [volumeWriteTable, pressureWriteTable], W.saver ∈ qhaOutputImports.map (·.2.2)) ∧
+    unitHelpers = [("_to_gpa", "units.rydberg / units.bohr ** 3", "units.GPa"),
+                   ("_to_ang3", "units.bohr ** 3", "units.angstrom ** 3")] ∧
+    (∀ v ∈ modulusViews, v.2.1 = v.2.2.1) ∧
+    (∀ c ∈ baseNames.map (·.1), ∀ p ∈ ["modulus_adiabatic", "modulus_isothermal"], (c, p) ∈ modulusViews.map fun v => (v.1, v.2.1)) ∧
+    baseArrays = [("CijVolumeBaseInterface", "t_array", "self.calculator.qha_calculator.volume_base.t_array"),
+                  ("CijVolumeBaseInterface", "v_array", "self.calculator.qha_calculator.volume_base.v_array"),
+                  ("CijPressureBaseInterface", "t_array", "self.calculator.qha_calculator.pressure_base.t_array"),
+                  ("CijPressureBaseInterface", "p_array", "self.calculator.qha_calculator.pressure_base.p_array")] ∧
+    convertUnitParams.take 2 = [convertUnitFrom, convertUnitTo] := by
+  decide +kernel
+
+/-- adiabatic / isothermal selection down to the calculator: the rule a keyword resolves to names a property whose view, in
+BOTH classes, hands out the calculator attribute of that name -/
+theorem tensor_selection_is_source :
+    (∀ k ∈ ["cij", "cij_s", "adiabatic_elastic_moduli"], ∀ c ∈ baseNames.map (·.1),
+      (resolve k).bind (fun r => (modulusViews.find? fun v => v.1 == c && v.2.1 == r.prop).map (·.2.2.1)) = some "modulus_adiabatic") ∧
+    (∀ k ∈ ["cij_t", "isothermal_elastic_moduli"], ∀ c ∈ baseNames.map (·.1),
+      (resolve k).bind (fun r => (modulusViews.find? fun v => v.1 == c && v.2.1 == r.prop).map (·.2.2.1)) = some "modulus_isothermal") := by
+  decide +kernel
+
+/-- consequence for the existing theorems: with the translated layer order a user `unit` really reaches pint, a user key
+`prop` / `fname_pattern` never changes what is read or how the file is named (the code reads `self.prop`, `self.fname_pattern`). -/
+theorem override_is_user_over_rule {α} [Mul α] (U : Writer.Units α) (r : WriterRule) (kw u' : String) :
+    factorOf U r (some { keyword := kw, unit := some u' }) = U.conv r.unitInternal u' ∧
+    factorOf U r (some { keyword := kw }) = U.conv r.unitInternal r.unit ∧
+    factorOf U r none = U.conv r.unitInternal r.unit := by
+  simp [writer_model_is_source_convert, writeVariableSpec, lookup, asdictGet, tupleGet, Src.generated, writerRuleFields,
+    writerCreateKeys, convertUnitParams, convertUnitFrom, convertUnitTo, dictGet, yamlGet, userGet, PyVal.asStr, convertCall]
+
+end source
+
 /-! #### non-vacuity -/
 
 example : (resolve "cij").isSome ∧ resolve "cij" = resolve "adiabatic_elastic_moduli" ∧ resolve "cij" ≠ resolve "cij_t" ∧
@@ -451,5 +615,26 @@ example : (writeKeyword (α := Int) { toGPa := 1, toAng3 := 1, conv := fun _ _ =
         props := [("bulk_modulus_voigt", .value [[1, 2], [3, 4], [5, 6], [7, 8], [9, 10]])] }
       { keyword := "B_V" }).map (fun ts => ts.map fun t => (t.fname, t.rows, t.cols, t.vals)) =
     some [("bm_V_tp_gpa.txt", [5], [0, 10], [[3, 6]])] := by decide +kernel
+
+-- the interpreters compute: the translated `write_variable` on the witness of `value_file_on_requested_grid` …
+set_option synthInstance.maxSize 512 in
+example : (Source.evalWrite Source.Src.generated writeVariableSpec (α := Int) { toGPa := 1, toAng3 := 1, conv := fun a b => if a = "rydberg / bohr ^ 3" ∧ b = "kbar" then some 10 else some 1 }
+      { keywords := ["B_V"], fnamePattern := "bm_V_{base}_gpa.txt", prop := "bulk_modulus_voigt", unit := "GPa", unitInternal := "rydberg / bohr ^ 3", varType := "value" }
+      { baseName := "tp", pressureBase := true, tArray := [0, 1, 2, 3, 4], axis := [7],
+        props := [("bulk_modulus_voigt", .value [[1], [2], [3], [4], [5]])] }
+      (some { keyword := "B_V", unit := some "kbar" })).map (fun ts => ts.map fun t => (t.fname, t.rows, t.cols, t.vals)) =
+    some [("bm_V_tp_gpa.txt", [0], [7], [[10]])] := by decide +kernel
+-- … and the data matters: with the layers in the other order (rule over user) the same request ignores the unit
+set_option synthInstance.maxSize 512 in
+example : (Source.evalWrite Source.Src.generated { writeVariableSpec with layers := ["user", "rule"] } (α := Int) { toGPa := 1, toAng3 := 1, conv := fun a b => if a = "rydberg / bohr ^ 3" ∧ b = "kbar" then some 10 else some 1 }
+      { keywords := ["B_V"], fnamePattern := "bm_V_{base}_gpa.txt", prop := "bulk_modulus_voigt", unit := "GPa", unitInternal := "rydberg / bohr ^ 3", varType := "value" }
+      { baseName := "tp", pressureBase := true, tArray := [0, 1, 2, 3, 4], axis := [7],
+        props := [("bulk_modulus_voigt", .value [[1], [2], [3], [4], [5]])] }
+      (some { keyword := "B_V", unit := some "kbar" })).map (fun ts => ts.map fun t => (t.fname, t.rows, t.cols, t.vals)) =
+    some [("bm_V_tp_gpa.txt", [0], [7], [[1]])] := by decide +kernel
+-- a wiring whose sample argument is not the label array is outside what the model covers (no silent agreement)
+example : (Source.evalWriteTable { pressureWriteTable with args := [("", "value"), ("", "self.t_array"), ("_to_gpa", "self.p_array"), ("", "self.p_array"), ("", "fname")] }
+      witnessUnits witnessBase "x" [[1], [2], [3], [4], [5]]).isNone = true ∧
+    (Source.evalWriteTable pressureWriteTable witnessUnits witnessBase "x" [[1], [2], [3], [4], [5]]).isSome = true := by decide +kernel
 
 end Cij.C15
